@@ -17,6 +17,8 @@ import random
 import struct as pystruct
 
 from common import Result, driver_batch, hexs, load_corpus, use_repo
+import strshapes
+import watchdog
 
 use_repo()
 
@@ -159,11 +161,21 @@ def device(T):
     return _DEVS[T]
 
 
+STALLS = [0]   # decodes cut short by the CPU watchdog in this run
+
+
 def attempt(fn, canon):
-    try:
-        v = fn()
-    except Exception as e:  # noqa: BLE001
-        return "E:" + err_kind(e)
+    # a decode that does not come back (e.g. a pattern that backtracks exponentially on the text of the payload) is a
+    # failing input of the decoder, not a harness timeout: cut it after a generous CPU bound (watchdog.py; the same
+    # device as in the C09 harness).  After a few such decodes the bound drops: the point is made, the run must end
+    with watchdog.Watchdog(watchdog.bound() if STALLS[0] < 3 else 0.5) as dog:
+        try:
+            v = fn()
+        except Exception as e:  # noqa: BLE001
+            return "E:" + err_kind(e)
+    if dog.fired:
+        STALLS[0] += 1
+        return f"!stall: decoding did not come back within {dog.cpu_s:.1f} s of CPU"
     try:
         return canon(v)
     except Exception as e:  # noqa: BLE001
@@ -206,6 +218,8 @@ def observe(fam, payload, T):
     if T is not None:
         frame.assign_to(device(T))
     first = attempt(lambda: frame.data, canon)
+    if first.startswith("!stall"):
+        return first, []
     problems = []
     again = [attempt(lambda: frame.decode_message(frame.message), canon) for _ in range(2)]
     fresh = cls(message=bytearray(payload))
@@ -417,6 +431,9 @@ def gen_uid(rng, tier):
         ulen = rng.choice([0, 1, 5, 12, 12, rng.randrange(40)]) if k % 61 else 255
         uid = bytes(rng.choice([0, 0xFF, rng.randrange(256)]) if rng.random() < 0.1 else rng.randrange(256) for _ in range(ulen))
         name = gen_name(rng) if k % 67 else bytes(rng.randrange(32, 127) for _ in range(255))
+        if k % 41 == 7:   # texts drawn from shape families (long runs of letters, words, repeated blanks … up to 255 bytes)
+            name = strshapes.shape(rng, 255, rng.choice(["one-letter", "letters", "words", "words-wide", "letters-digits", "sep-runs",
+                                                         "period2", "digits", "blank", "digits-letters"]))[1]
         vals = [rng.choice([0, 255, 256, 65535, rng.randrange(65536)]) for _ in range(3)]
         yield f"p2enc uid {pt} {vals[0]} {hexs(uid)} {vals[1]} {vals[2]} {hexs(name)}", [None], f"uidlen={min(ulen, 40) // 10 * 10}+"
 
